@@ -96,7 +96,7 @@ def shards(tier):
         for i in range(k):
             out.append({"kind": "tree", "n": n, "slice": [i, k], "thin": tier == "quick" and n == 5})
     out += [{"kind": "value"}, {"kind": "flags"}, {"kind": "bigtable"}, {"kind": "holes"}, {"kind": "many"}, {"kind": "coincide"},
-            {"kind": "alive"}, {"kind": "free"}, {"kind": "competing"}, {"kind": "headers"}, {"kind": "chain"}, {"kind": "high"}]
+            {"kind": "alive"}, {"kind": "realfile"}, {"kind": "free"}, {"kind": "competing"}, {"kind": "headers"}, {"kind": "chain"}, {"kind": "high"}]
     return out
 
 
@@ -137,6 +137,10 @@ def run_shard(shard, ctx):
         for nt in (226, 227, 228, 240, 300):
             for holes in (0, 1):
                 run_case({"kind": "many", "ntables": nt, "holes": holes}, ctx)
+    elif kind == "realfile":
+        for buffering in (0, -1):
+            for steps in itertools.product(("decode", "stream-big", "stream-small"), repeat=3):
+                run_case({"kind": "realfile", "buffering": buffering, "steps": list(steps) + ["decode"]}, ctx)
     elif kind == "alive":
         for n in (2, 3):
             for use in itertools.product(range(n), repeat=3):
@@ -229,6 +233,58 @@ def run_case(case, ctx):
     kind = case["kind"]
     kw = {}
     nontrivial = False
+    if kind == "realfile":
+        # the file is handed over as an operating-system file (buffered or not); a 2 MiB value is read through the streaming
+        # interface of its file object, the stream is dropped and collected, and the tree is decoded again: same answer
+        import gc
+        import os
+
+        from mc.scratch import scratch_dir
+
+        ctx.outcome("value")
+        ctx.nontrivial += 1
+        tree = {"configuration": (B.T_NODE, {"blob": (B.T_ARR, bytes(range(256)) * 8192), "small": (B.T_ARR, b"\x07" * 0x900),
+                                             "i": (B.T_INT, -3600), "n": (B.T_NODE, {"s": (B.T_STR, "x" * 0x480)})})}
+        img = B.build(tree, ntables=2)
+        exp = B.plain(tree)
+        with scratch_dir() as d, ctx.watch(case):
+            p = os.path.join(d, "vm.vmrs")
+            with open(p, "wb") as f:
+                f.write(img)
+            fh = open(p, "rb", buffering=0) if case["buffering"] == 0 else open(p, "rb")
+            try:
+                hf = HyperVFile(fh)
+                for step in case["steps"]:
+                    ctx.transitions += 1
+                    ctx.states += 1
+                    if step == "decode":
+                        got = hf.as_dict()
+                        if not _same(got, exp):
+                            ctx.violation(case, {"subject": "hyperv.realfile", "kind": "tree-mismatch"}, {"got": repr(got)[:200]})
+                            return
+                    else:
+                        ent = hf["configuration"]["blob" if step == "stream-big" else "small"]
+                        fo = ent.get_file_object()
+                        st = fo.open(ent.file_object_pointer[1])
+                        data = st.read()
+                        want = exp["configuration"]["blob" if step == "stream-big" else "small"]
+                        if bytes(data) != bytes(want):
+                            ctx.violation(case, {"subject": "hyperv.realfile", "kind": "stream-mismatch"}, {"len": len(data)})
+                            return
+                        del st
+                        gc.collect()
+                os.fstat(fh.fileno())
+                fh.seek(0)
+                if fh.read(4) != img[:4]:
+                    ctx.violation(case, {"subject": "hyperv.realfile", "kind": "handle-unusable-afterwards"}, {})
+            except Exception as e:
+                ctx.violation(case, {"subject": "hyperv.realfile", "kind": "exception", "exc": type(e).__name__}, {"exception": repr(e)[:300]})
+            finally:
+                try:
+                    fh.close()
+                except Exception:
+                    pass
+        return
     if kind == "alive":
         # two or three files open at once, same layout (file objects at the same offsets), different values: each object
         # decodes its own file, in whatever order they are opened and used
